@@ -35,6 +35,7 @@ def run_property(prop: str, tier: str, root: str | None = None) -> int:
 
             if hasattr(mod, "run_thorough"):
                 mod.run_thorough(prog, rep)
+            thorough.engine_obligations(rep)
             thorough.selftest_obligations(prop, rep, prog.root)
             thorough.fuzz_obligations(prop, rep, prog.root)
             thorough.mypy_second_witness(rep, prog.root)
